@@ -30,6 +30,57 @@ ASSUMPTIONS = ["a module is identified by the name it is imported under"]
 KIND_OF_SYMBOL = {"function": "AddFunction", "declaration_statement": "AddDeclaration", "type_definition": "AddType", "import_statement": "AddImport"}
 
 
+MODULE_TABLES = ("Functions", "Globals", "Imports", "Metadata")
+_REMOVERS = ("pop", "popitem", "clear", "remove", "discard", "difference_update", "intersection_update")
+
+
+def table_removals(tree):
+    """[(table, node)] statements that take an entry out of a module's Functions / Globals / Imports / Metadata table,
+    directly or through a local alias of the table."""
+    from ..sem import local_env, resolve
+
+    out, seen = [], set()
+    funcs = [f for f in ast.walk(tree) if isinstance(f, (ast.FunctionDef, ast.AsyncFunctionDef))]
+    scopes = [(f, local_env(f, allow_impure=True)) for f in funcs] + [(tree, {})]
+    for scope, env in scopes:
+        for x in ast.walk(scope):
+            if id(x) in seen:
+                continue
+            hit = None
+            if isinstance(x, ast.Delete):
+                for t in x.targets:
+                    base = resolve(t.value, env) if isinstance(t, ast.Subscript) else None
+                    if isinstance(base, ast.Attribute) and base.attr in MODULE_TABLES:
+                        hit = base.attr
+            elif isinstance(x, ast.Call) and isinstance(x.func, ast.Attribute) and x.func.attr in _REMOVERS:
+                base = resolve(x.func.value, env)
+                if isinstance(base, ast.Attribute) and base.attr in MODULE_TABLES:
+                    hit = base.attr
+            if hit:
+                seen.add(id(x))
+                out.append((hit, x))
+    return out
+
+
+def check_tables_keep_entries(model, col, rule):
+    """A lowered module keeps every function, global and import it has: importers, the linker and the module file all read
+    these tables, so an entry taken out after lowering (e.g. a function that looks unused *within this module*) is missing
+    for every other module that calls it."""
+    probe = ast.parse("def f(m):\n    t = m.Functions\n    for n in list(t):\n        del t[n]\n    m.Globals.pop('g')\n")
+    if len(table_removals(probe)) != 2:
+        raise AnalysisError("R16.8: the table-removal detector does not fire on its positive example")
+    n = 0
+    for rel, fi in sorted(model.files.items()):
+        if not (rel.startswith("nsl/") or rel in ("nslc.py", "nslr.py")):
+            continue
+        n += 1
+        hits = table_removals(fi.tree)
+        col.check(not hits, rule, f"{rel}:: removes nothing from a module's tables", "no del / pop / clear on Functions, Globals, Imports or Metadata",
+                  (f"`{' '.join(unparse(hits[0][1]).split())[:80]}` takes entries out of `{hits[0][0]}`" if hits else "") + ": what this module defines is no longer what other modules can "
+                  "import and link against, and the module file no longer holds what was compiled", rel, hits[0][1] if hits else fi.tree)
+    col.floor(rule, "files scanned for table removals", n, 20)
+
+
 def run(model, col, tier):
     G = Grammar(model)
     # ---------------- R16.1 -------------------------------------------------------
@@ -404,7 +455,7 @@ def run(model, col, tier):
     _c10.run(model, sub168, "quick")
     n168 = 0
     for ob in sub168.obligations:
-        if ob.rule == "R10.3" and "v_Module" in ob.construct:
+        if ob.rule == "R10.3" and ("v_Module" in ob.construct or "Linker." in ob.construct):
             ob.detail = "[R10.3] " + (ob.detail or "")
             ob.rule = "R16.5"
             col.obligations.append(ob)
@@ -422,6 +473,7 @@ def run(model, col, tier):
         col.check(not hits, "R16.8", f"{rel}:: changes no interpreter-wide setting", "no os.chdir / sys.path / os.environ write",
                   (f"`{' '.join(unparse(hits[0]).split())[:70]}`" if hits else "") + ": import names recorded at compile time are looked up relative to another directory at run time - "
                   "another (stale) file of that name is linked, or none is found", rel, hits[0] if hits else fi_.tree)
+    check_tables_keep_entries(model, col, "R16.8")
     for rel, x in writers:
         col.check(rel == "nsl/passes/LowerToIR.py", "R16.8", f"{rel}:: writes Module.Metadata only while lowering", "the interface of a module (functions, types) is what lowering recorded",
                   f"`{' '.join(unparse(x).split())[:90]}` in {rel} changes the recorded interface after lowering: importers no longer see the functions / types the module defines "
